@@ -185,6 +185,11 @@ class SgzReader(object):
                               pad(self.n_xlines, self.blockshape[1]),
                               pad(self.n_samples, self.blockshape[2]))
 
+        # Files written before the length of the compressed data was recorded in the header
+        if self.compressed_data_diskblocks == 0:
+            self.compressed_data_diskblocks = int(self.shape_pad[0] * self.shape_pad[1] * self.shape_pad[2]
+                                                  * self.rate) // (8 * DISK_BLOCK_BYTES)
+
         # These are useful units of measurement for SGZ files:
 
         # A 'compression unit' is the smallest decompressable piece of the SGZ file.
